@@ -8,7 +8,7 @@ independent Go visibility/import oracle.
 """
 import os
 
-THEOREMS = ["IstioModel.C07.HostTheorems", "IstioModel.C07.VisTheorems", "IstioModel.C07.ScopeTheorems",
+THEOREMS = ["IstioModel.C07.HostTheorems", "IstioModel.C07.VisTheorems", "IstioModel.C07.VSTheorems", "IstioModel.C07.ScopeTheorems",
             "IstioModel.C07.RuleTheorems"]
 STREAMS = [("host", 3000, 60000), ("vis", 1500, 30000), ("scope", 4000, 60000)]
 
@@ -67,6 +67,20 @@ def run_oracle_over(ctx, stream, ops):
                           {"stream": stream, "ops": lines[s:e], "oracle_verdict": v}, True)
 
 
+def private_bin(ctx):
+    """Other runs (other checks, a second run of this one) rebuild harness/bin concurrently and remove the
+    binary first; run from a private copy so that this run never loses its executable half way."""
+    import atexit
+    import shutil
+    src = getattr(ctx, "bin_path", None)
+    if not src or not os.path.exists(src):
+        return
+    dst = os.path.join(ctx.work, "c07.bin.%d" % os.getpid())
+    shutil.copy2(src, dst)
+    ctx.bin_path = dst
+    atexit.register(lambda: os.path.exists(dst) and os.remove(dst))
+
+
 def run(ctx):
     ctx.rule = ("host: 1-6 hostname pairs per case over labels {a,b,c,com,foo,svc,x-y,a1} with `*.`, `*`, bare `*`, `**.`, inner-star, "
                 "leading-dot and empty forms, second name derived from the first (parent wildcard, added label, dropped wildcard). "
@@ -97,6 +111,7 @@ def run(ctx):
         return
     if not ctx.go_build():
         return
+    private_bin(ctx)
     for stream, q, t in STREAMS:
         ctx.diff_stream(stream, ctx.n(q, t), oracle=oracle)
     cdir = os.path.join(os.path.dirname(os.path.dirname(os.path.abspath(__file__))), "harness", "corpus", ctx.pid)
@@ -124,6 +139,7 @@ def replay(ctx, path):
         return run(ctx)
     if not (ctx.build_drv() and ctx.go_build()):
         return
+    private_bin(ctx)
     p = os.path.join(ctx.work, "replay.ops")
     with open(p, "w") as f:
         f.write("\n".join(ops) + "\n")
